@@ -54,3 +54,50 @@ func VerifC13NM(base uint64, nmOut string, addrs []uint64) (names []string, foun
 	}
 	return names, found, len(a.m), nil
 }
+
+// verifC13RW is a scripted lineReaderWriter: it records what is written and answers from a queue.
+type verifC13RW struct {
+	written []string
+	answers []string
+}
+
+func (r *verifC13RW) write(s string) error { r.written = append(r.written, s); return nil }
+func (r *verifC13RW) readLine() (string, error) {
+	if len(r.answers) == 0 {
+		return "", errVerifC13EOF
+	}
+	s := r.answers[0]
+	r.answers = r.answers[1:]
+	return s, nil
+}
+func (r *verifC13RW) close() {}
+
+type verifC13Err string
+
+func (e verifC13Err) Error() string { return string(e) }
+
+const errVerifC13EOF = verifC13Err("verif: script exhausted")
+
+// VerifC13ToolInput returns the first line addr2Liner.addrInfo and llvmSymbolizer.addrInfo (code and
+// data mode) write to their tools for the given base and address.
+func VerifC13ToolInput(base, addr uint64) (a2l, llvmCode, llvmData string, err error) {
+	rw := &verifC13RW{answers: []string{"0x0", "fn", "file.c:1", "0xffffffffffffffff", "??", "??:0"}}
+	a := &addr2Liner{rw: rw, base: base}
+	if _, err = a.addrInfo(addr); err != nil {
+		return
+	}
+	a2l = rw.written[0]
+	rw = &verifC13RW{answers: []string{`{"Address":"0x0","ModuleName":"m","Symbol":[{"FunctionName":"f","FileName":"f.c","Line":1}]}`}}
+	l := &llvmSymbolizer{filename: "m", rw: rw, base: base}
+	if _, err = l.addrInfo(addr); err != nil {
+		return
+	}
+	llvmCode = rw.written[0]
+	rw = &verifC13RW{answers: []string{`{"Address":"0x0","ModuleName":"m","Data":{"Start":"0x0","Size":"4","Name":"d"}}`}}
+	l = &llvmSymbolizer{filename: "m", rw: rw, base: base, isData: true}
+	if _, err = l.addrInfo(addr); err != nil {
+		return
+	}
+	llvmData = rw.written[0]
+	return
+}
